@@ -92,7 +92,9 @@ func cmdRand(args []string) {
 	plansOut := fs.String("plans", "", "also write the plans (for replay)")
 	runBase := fs.Int("runbase", 0, "first run number")
 	fill := fs.Bool("fill", false, "fill-the-semaphore schedule: limit 2 or 3, not serial, workers held inside their function until the limit is reached")
+	wide := fs.Bool("wide", false, "graphs of 7-8 vertices with five and more dependencies per vertex")
 	fs.Parse(args)
+	dh.Wide = *wide
 	r := rand.New(rand.NewSource(*seed))
 	f, err := os.Create(*out)
 	if err != nil {
